@@ -120,7 +120,7 @@ def run_tlc(module, cfg, wd, workers=12, timeout=1800, consts=None, env_extra=No
     if simulate:
         cmd += ["-simulate", simulate]
     if deadlock:
-        cmd += ["-deadlock"]
+        cmd += ["-deadlock"]          # TLC's -deadlock switch turns deadlock checking OFF
     cmd.append(os.path.join(SPEC, module + ".tla"))
     env = _java()
     if env_extra:
